@@ -24,3 +24,35 @@ Theorem SRC_hash_file : forall hbuf alg a block stream,
 Proof. exact SRC_hash_file_proof. Qed.
 Print Assumptions SRC_hash_file.
 
+
+(* ---- composed with C07 (model = FIPS 180-4 / RFC 1321): what clang reads in sha1.cpp / md5.cpp / sha256.cpp,
+        hashmaster.cpp and hashbuffer.cpp computes the standard digest ---- *)
+From Wencry Require Import HashSpec HashProofs.
+
+Theorem SRC_hash_string_is_standard : forall alg a msg,
+  get_hasher alg = Some a -> bytesb msg = true -> N.of_nat (length msg) < 2 ^ 32 ->
+  src_hash_string alg msg = SOk (hash_spec alg msg).
+Proof.
+  intros alg a msg Ha Hb Hl. rewrite (SRC_hash_string alg a msg Ha Hb Hl). f_equal.
+  apply C07_string_digest_is_standard_proof; auto.
+  apply N.lt_trans with (8 * 2 ^ 32); [apply N.mul_lt_mono_pos_l; [reflexivity|exact Hl]|reflexivity].
+Qed.
+Print Assumptions SRC_hash_string_is_standard.
+
+Theorem SRC_hash_file_is_standard : forall hbuf alg a block stream,
+  get_hasher alg = Some a -> (1 <= hbuf)%nat -> N.of_nat (64 * hbuf) < 2 ^ 32 ->
+  bytesb stream = true -> N.of_nat (length stream) < 2 ^ 56 ->
+  (forall b, block = Some b -> length b = 64%nat /\ bytesb b = true) ->
+  src_hash_file hbuf alg block stream = SOk (hash_spec alg (match block with None => [] | Some p => p end ++ stream)).
+Proof.
+  intros hbuf alg a block stream Ha Hh Hh2 Hb Hl Hblk.
+  destruct (SRC_hash_file hbuf alg a block stream Ha Hh Hh2 Hb Hl Hblk) as [d [Hm Hs]].
+  rewrite Hs. f_equal.
+  assert (Hstd : getFileHash hbuf a block stream = Some (hash_spec alg (match block with None => [] | Some p => p end ++ stream))).
+  { apply C07_file_digest_is_standard_proof; auto.
+    - destruct block as [b|]; [apply Hblk; reflexivity|exact I].
+    - rewrite Nat2N.inj_add. apply N.lt_trans with (8 * (64 + 2 ^ 56)); [|reflexivity].
+      apply N.mul_lt_mono_pos_l; [reflexivity|]. apply N.add_lt_mono_l. exact Hl. }
+  rewrite Hm in Hstd. injection Hstd; auto.
+Qed.
+Print Assumptions SRC_hash_file_is_standard.
